@@ -30,7 +30,11 @@ TwinPairs == ConversionPairs \cup MethodPairs \cup MetricPairs \cup EstimatorPai
 (* the form the caller's data are in: float arrays of unit-scale values, integer-dtype arrays (raw sensor counts,
    integer-valued quaternions), or non-normalised (scaled) quaternions / measurements *)
 (* "near-unit": unit rows whose norm has drifted by a few parts per million (inside the tolerance of the versor test) *)
-Forms == {"float", "int-dtype", "scaled", "near-unit"}
+(* "held-first" / "held-second": a two-sensor array in which every row carries the FIRST row's accelerometer (resp. magnetometer) sample,
+   bit for bit, while the other sensor changes from row to row (a sensor logged at a lower rate with zero-order hold);
+   "nan-entry": one entry of the row is NaN, for the metrics that are documented to skip NaN entries *)
+Forms == {"float", "int-dtype", "scaled", "near-unit", "held-first", "held-second", "nan-entry"}
+NanPairs == {"rmse"}
 (* "conjugated" / "mirrored": for the two-operand (metric) pairs, the second operand is the conjugate of the first / the first with the
    sign of one component flipped (equal magnitudes component by component, another rotation); one more generic row for the others *)
 RowClasses == {"generic-a", "generic-b", "half-turn", "near-identity", "identity", "near-half-turn", "conjugated", "mirrored"}
